@@ -428,6 +428,21 @@ def run_shard(shard):
                                             check_roundtrip(acc, pendulum, z, f, loc, fmt, full)
                                         acc.c["nontrivial"] += 1
         acc.sample({"roundtrip_format": DATE_PARTS[3] + " " + TIME_PARTS[2] + ".SSSSSS Z", "zones": [str(z) for z in shard["zones"]]})
+    elif k == "hours":
+        # every hour of the day (the 12-hour clock folds 24 values onto 12 + meridiem) x every time spelling
+        for z in shard["zones"]:
+            for (y, m, d) in ((2021, 3, 9), (2024, 2, 29)):
+                for hour in range(24):
+                    for mi, sec, us in ((0, 0, 0), (59, 59, 999999)):
+                        f = (y, m, d, hour, mi, sec, us)
+                        acc.c["states"] += 1
+                        for tp in TIME_PARTS:
+                            for dp in (DATE_PARTS[0], DATE_PARTS[5]):
+                                fmt = dp + " " + tp + ".SSSSSS" + (" Z" if z is not None else "")
+                                with worker.guarded(acc, "from_format", {"kind": "rt", "z": z, "f": list(f), "loc": "en", "fmt": fmt}):
+                                    check_roundtrip(acc, pendulum, z, f, "en", fmt, z is not None)
+                                acc.c["nontrivial"] += 1
+        acc.sample({"roundtrip_all_hours": DATE_PARTS[0] + " " + TIME_PARTS[3] + ".SSSSSS Z", "hours": "0..23"})
     elif k == "locales":
         f = (2021, shard["month"], 7, 15, 4, 5, 123456)
         for loc in c18.LOCALES:
@@ -474,6 +489,8 @@ def plan(tier, seed):
         for tp in TIME_PARTS:
             shards.append({"kind": "roundtrip", "zones": [z], "dates": dates,
                            "time_parts": [tp], "locales": ["en"] if not thorough else ["en", "de", "pl"]})
+    for z in rz:
+        shards.append({"kind": "hours", "zones": [z]})
     for month in range(1, 13):
         shards.append({"kind": "locales", "month": month})
     return [({"ext": 1, "tz": "sys"}, shards)] + ([({"ext": 0, "tz": "sys"}, shards)] if thorough else [])
@@ -489,7 +506,8 @@ def evidence(m, tier, seed):
                 "4 times x 19 zones/offsets (incl. negative sub-hour offsets, 3-part zone name, naive); each state x 47 "
                 "documented tokens x 5 locales (thorough 27) + 16 named helpers + literal/escape formats; all 47^2 ordered "
                 "token pairs x 6 separators on 4 values x 2 locales; from_format(format()) over the grammar 10 date parts x "
-                "5 time parts x 5 fraction widths x {Z, ZZ, z, none}; localized month/day names x 27 locales x 12 months x "
+                "5 time parts x 5 fraction widths x {Z, ZZ, z, none}; every hour 0..23 x 2 minute/second settings x 5 time parts "
+                "x 9 zones; localized month/day names x 27 locales x 12 months x "
                 "7 weekdays; defaults from an injected now; non-matching strings; non-trivial = round-trip formats and "
                 "token-pair batches",
         "exhaustive": True,
